@@ -633,6 +633,13 @@ def r05_6(ctx: Ctx, rep: Report) -> None:
                 if isinstance(n, ast.Call):
                     fn = n.func
                     target = None
+                    if isinstance(fn, ast.Name) and fn.id not in holders:
+                        # a local alias of the object's own class: cls = self.__class__
+                        from .common import single_env
+
+                        al = single_env(f.node).get(fn.id)
+                        if al is not None and src(al) in ("self.__class__", "type(self)"):
+                            fn = al
                     if isinstance(fn, ast.Name) and fn.id in holders:
                         target = fn.id
                     elif src(fn) in ("self.__class__", "type(self)"):
